@@ -4,6 +4,7 @@ package server
 // plus the tie of the Lean model of path/filepath Clean/Join to the real functions.
 
 import (
+	"errors"
 	"fmt"
 	"os"
 	"path/filepath"
@@ -275,6 +276,8 @@ func TestVerifC13(t *testing.T) {
 			c13BlobCase(out, models, string(zzverif.Unhex(f[2])))
 		case len(f) == 2 && f[0] == "clean":
 			c13CleanCase(out, string(zzverif.Unhex(f[1])))
+		case len(f) == 3 && f[0] == "copy":
+			c13CopyReplay(t, out, string(zzverif.Unhex(f[1])), string(zzverif.Unhex(f[2])))
 		case len(f) == 2 && f[0] == "canon":
 			c13BlobCase(out, models, string(zzverif.Unhex(f[1])))
 		case len(f) >= 2 && f[0] == "enum":
@@ -512,6 +515,24 @@ func c13EnumCase(t *testing.T, out *zzverif.Out, rels []string, r *zzverif.Rng) 
 		}
 		ds = q[0] + "/" + q[1] + "/" + q[2] + ":" + q[3]
 	}
+	c13CopyCase(out, models, src, ds)
+}
+
+// c13CopyReplay: a store holding only the source manifest, then the recorded CopyModel.
+func c13CopyReplay(t *testing.T, out *zzverif.Out, srcs, ds string) {
+	models := filepath.Join(t.TempDir(), "store")
+	t.Setenv("OLLAMA_MODELS", models)
+	src := model.ParseName(srcs)
+	if src.IsValid() {
+		p := filepath.Join(models, "manifests", src.Filepath())
+		os.MkdirAll(filepath.Dir(p), 0o755)
+		os.WriteFile(p, []byte("{}"), 0o644)
+	}
+	c13CopyCase(out, models, src, ds)
+}
+
+func c13CopyCase(out *zzverif.Out, models string, src model.Name, ds string) {
+	manifests := filepath.Join(models, "manifests")
 	dst := model.ParseName(ds)
 	before := map[string]bool{}
 	for _, f := range c13AllFiles(models) {
@@ -519,13 +540,19 @@ func c13EnumCase(t *testing.T, out *zzverif.Out, rels []string, r *zzverif.Rng) 
 	}
 	cerr := CopyModel(src, dst)
 	out.Count("copy_cases")
+	out.Count("cases")
+	if errors.Is(cerr, model.ErrUnqualifiedName) {
+		out.Case("copy "+zzverif.Hex([]byte(src.String()))+" "+zzverif.Hex([]byte(ds)), "refused")
+	} else {
+		out.Case("copy "+zzverif.Hex([]byte(src.String()))+" "+zzverif.Hex([]byte(ds)), "accepted")
+	}
 	var fresh []string
 	for _, f := range c13AllFiles(models) {
 		if !before[f] {
 			fresh = append(fresh, f)
 		}
 	}
-	cop := "mname " + zzverif.Hex([]byte(ds))
+	cop := "copy " + zzverif.Hex([]byte(src.String())) + " " + zzverif.Hex([]byte(ds))
 	if !dst.IsValid() {
 		out.Count("copy_refused_invalid")
 		if cerr == nil || len(fresh) > 0 {
